@@ -4,6 +4,7 @@ import (
 	"context"
 	"errors"
 	"fmt"
+	goat "github.com/avos-io/goat"
 	"io"
 	"math"
 	"strings"
@@ -72,6 +73,7 @@ func c16(tier string) []*explore.Scenario {
 	for pos := 0; pos < 4; pos++ {
 		out = append(out, c16ServerLinkWriteFault(pos, 4, 1))
 	}
+	out = append(out, c16LateAttach("C16", "Unary", 1), c16LateAttach("C16", "Bidi", 1), c16LateAttachD("C16", "Unary", 1, false, true), c16LateAttachD("C16", "Bidi", 1, false, true))
 	out = append(out, c16RPC("payloads", true, 0))
 	out = append(out, c16Burst(12, 0), c16Burst(50, 0), c16Burst(24, 1))
 	out = append(out, withoutDisconnectCallback(pickScenarios(out, "C16/opseq/", "C16/reattach/after-old-fails")...)...)
@@ -595,4 +597,79 @@ func subseqOf(a, b []string) bool {
 		j++
 	}
 	return true
+}
+
+// c16LateAttach: a client whose first request is already in its transport when the application attaches it
+// to the proxy (a peer that starts calling right after connecting, before the accept path has called
+// AddClient). The call completes like any other: by the time the proxy reads from the connection, replies
+// addressed to its name find it.
+func c16LateAttach(prop string, kind string, bound int) *explore.Scenario {
+	return c16LateAttachD(prop, kind, bound, false, false)
+}
+
+// noDemux: the server serves the proxy link directly; slowLog: the line AddClient logs goes to a slow sink
+func c16LateAttachD(prop string, kind string, bound int, noDemux, slowLog bool) *explore.Scenario {
+	fam := prop + "/late-attach"
+	name := fmt.Sprintf("%s/late-attach/%s/d=%d", prop, kind, bound)
+	if noDemux {
+		name += "/one-server-connection"
+	}
+	if slowLog {
+		name += "/slow-log"
+	}
+	return &explore.Scenario{
+		Name: name, Family: fam, Prop: prop, Bound: bound,
+		Run: func() {
+			w := env.NewWorld()
+			env.MsgSize = 0
+			t := env.NewProxyTopo(w, env.ProxyOpts{Clients: 1, PreAttach: true, Cap: 64, NoDemux: noDemux})
+			p := env.NewPipe(t.Tap, env.PipeOpts{Name: "cliX", Cap: 64})
+			cc := goat.NewClientConn(p.A, "cliX", "srv")
+			vsched.Settle()
+			vsched.Explore(true)
+			r := w.Rec("x", kind)
+			c := streamCase{"Bidi", "pingpong", "echo", 1, 0, 0}
+			if kind == "Unary" {
+				vsched.GoNamed("caller-x", func() { w.CallUnary(cc, context.Background(), r, "x") })
+			} else {
+				w.Handlers["x"] = c.handler()
+				vsched.GoNamed("caller-x", func() { c.runCaller(w, cc, context.Background(), r) })
+			}
+			vsched.Quiesce() // the request sits in the transport; nobody reads it yet
+			if slowLog {
+				// the log line AddClient writes goes to a slow sink: the call sits in it until everything else is at rest
+				gate := make(chan struct{})
+				restore := env.HoldLog("proxy.AddClient cliX", func() { <-gate })
+				defer restore()
+				defer func() {
+					vsched.Quiesce()
+				}()
+				vsched.GoNamed("attacher", func() { t.Proxy.AddClient("cliX", p.B) })
+				vsched.Quiesce()
+				close(gate)
+			} else {
+				vsched.GoNamed("attacher", func() { t.Proxy.AddClient("cliX", p.B) })
+			}
+			// traffic of an established client goes on meanwhile
+			o := w.Rec("o", "Unary")
+			vsched.GoNamed("caller-o", func() { w.CallUnary(t.CCs[0], context.Background(), o, "x") })
+			vsched.Quiesce()
+			if kind == "Unary" {
+				checkUnary(r, "x", fam)
+			} else if !r.CDone || r.CErr != io.EOF || !eqStrs(r.CRecv, r.HSent) || r.HStarts != 1 {
+				vsched.Fail(fam+"|stream", "the stream of a client that was already calling when it was attached did not complete: %s", r.Summary())
+			}
+			checkUnary(o, "x", fam)
+			for _, id := range t.Dialed {
+				if id == "cliX" {
+					vsched.Fail(fam+"|dialled-an-attached-peer", "the proxy dialled cliX although that peer was attached by the application (dialled: %v)", t.Dialed)
+				}
+			}
+			for _, id := range t.Disconnects {
+				if id == "cliX" {
+					vsched.Fail(fam+"|spurious-disconnect", "a disconnect was reported for cliX, whose connection is alive")
+				}
+			}
+		},
+	}
 }
